@@ -65,13 +65,13 @@ PROPS = {
     "C10": {"units": ["BLD", "ACT", "RELAY", "CLN"], "level": "proof", "assume": ACTORS,
             "not_covered": ["not covered: any latency bound; grandchildren of the shell; the hand-off from the signal handler task"]},
     "C11": {"units": ["ACT", "RELAY", "CLN"], "level": "proof", "assume": ACTORS},
-    "C12": {"units": ["CLN", "INC", "FS"], "level": "proof", "assume": ["A-hash", "A-std", "A-fs", "A-clap", "R1"] + FSA,
+    "C12": {"units": ["CLN", "INC", "FS", "CFG"], "level": "proof", "assume": ["A-hash", "A-std", "A-fs", "A-clap", "R1"] + FSA,
             "not_covered": ["not covered: what remove_dir_all and the directory walk do with symbolic links (A-fs); clap argument parsing"]},
     "C13": {"units": ["CFG", "INC", "WCH", "FS"], "level": "proof", "assume": CFGA + ["A-fs", "A-codec", "A-cmd"] + FSA,
             "not_covered": ["not covered: Path::join itself (an uninterpreted function of directory and relative text); the regex that recognises X.output entries (A-yaml)"]},
     "C14": {"units": ["CFG", "CLN"], "level": "proof", "assume": CFGA,
             "not_covered": ["not applicable within C14: totality and strictness of parsing (serde_yaml, derive attributes, regexes) - third-party parser code with no contract within reach; only the uniqueness / import-name / injectivity half is proved"]},
-    "C15": {"units": ["FS", "INC", "CLN", "WCH"], "level": "proof", "assume": ["A-std", "A-hash", "A-fs", "A-walkdir", "A-str", "A-adapters", "R1"],
+    "C15": {"units": ["FS", "INC", "CLN", "WCH", "CFG"], "level": "proof", "assume": ["A-std", "A-hash", "A-fs", "A-walkdir", "A-str", "A-adapters", "R1"],
             "not_covered": ["not covered: byte-level UTF-8 decoding of names (to_string_lossy / to_str are assumed total functions), symlink loops, the order of the listing, notify itself (C16)"]},
     "C16": {"units": ["WCH", "RELAY", "FS"], "level": "proof", "assume": ["A-std", "A-chan", "A-notify", "A-str", "A-all", "A-walkdir", "A-adapters"],
             "not_covered": ["not covered: notify itself, recursion into directories created later; the byte-level UTF-8 decoding behind to_string_lossy (assumed total)"]},
